@@ -173,10 +173,10 @@ def run(chk):
 def bounded(chk):
     from props import c13_replay
     t0 = time.time()
-    rp = c13_replay.replay(dict(engine="GMRES", part="bounded"))
+    rp = c13_replay.replay(dict(engine="GMRES", part="bounded", tier=chk.tier), timeout=1800)
     ok = rp.get("replayed") and not rp.get("failing_input_found")
     ob = Ob(key="C13/gmres/the returned iterate attains the minimal residual over x0 + K_m (reference least squares), residual <= initial, non-increasing in m, zero for m >= n or "
-                "at the degree of the minimal polynomial/bounded(n<=24)",
+                "at the degree of the minimal polynomial/bounded(n<=24; thorough: n<=40)",
             fn=FN + "gmres", clause="GMRES optimality on the real code", engine="BOUNDED", status=DISCHARGED if ok else FAILED,
             backend="real code on concrete operators (n <= 24; real non-symmetric, complex, normal, non-normal; several columns, eigenvector right-hand sides, non-zero x0; m = 1..n+3)",
             secs=time.time() - t0, bounded=True, detail=str({k: v for k, v in rp.items() if k != "replayed"})[:400])
